@@ -14,11 +14,11 @@ import (
 )
 
 type Ctx struct {
-	Repo, Harness string
-	Tier          string
-	L             *load.Loaded
-	Start         time.Time
-	Log           func(format string, a ...interface{})
+	Repo, Harness, VerifDir string
+	Tier                    string
+	L                       *load.Loaded
+	Start                   time.Time
+	Log                     func(format string, a ...interface{})
 }
 
 func (c *Ctx) Load(patterns ...string) error {
@@ -142,7 +142,7 @@ func (c *Ctx) Discharge(in *sym.Interp, obs []*sym.Obligation, timeout time.Dura
 			for _, n := range names {
 				vals = append(vals, terms[n])
 			}
-			q := &smt.Query{Name: fmt.Sprintf("%s-%d", ob.ID, i), Asserts: asserts, Values: vals, Timeout: timeout}
+			q := &smt.Query{Name: fmt.Sprintf("%s-%d", ob.ID, i), Asserts: asserts, Values: vals, Timeout: timeout, Both: true}
 			in.WithWorker(func(w *smt.Worker) { r.Res = w.Check(q) })
 			if r.Res.Status == smt.Sat {
 				r.Values = map[string]smt.ModelValue{}
